@@ -11,13 +11,16 @@ from harness import core
 from harness.gen import ir as G
 from harness.impl import docir
 
-MODULE = "CddVerif.Properties.C01Whole"  # imports Properties.C01 (value-level theorems) through Proofs/DocRoundTrip*.lean
+MODULE = "CddVerif.Properties.C01All"  # aggregator: imports Properties.C01 (value level), C01Whole (ReST) and C01Google (Google)
+GOOGLE = ["google_roundtrip_full", "google_roundtrip_names", "google_roundtrip_docs", "google_roundtrip_header", "google_roundtrip_types_defaults", "google_roundtrip_plain",
+          "latch_gives_default", "return_entry_changes_header", "docless_needed", "or_type_needed", "brace_doc_needed", "header_args_needed", "paren_name_needed",
+          "adhoc_needed", "grammar_needed"]
 WHOLE = ["rest_roundtrip_full", "rest_roundtrip_names", "rest_roundtrip_docs", "rest_roundtrip_docs_same", "rest_roundtrip_defaults", "rest_roundtrip_types",
          "rest_roundtrip_types_same", "rest_roundtrip_header", "rest_roundtrip_returns", "rest_roundtrip_exact", "C01_full_false",
          "dup_names_needed", "return_type_name_needed", "optional_doc_needed", "optional_suffix_needed", "compat_needed", "announce_needed",
          "paren_announce_needed", "defaults_word_needed", "trailing_blank_needed", "header_blank_needed", "two_line_doc_needed", "token_in_doc_needed",
          "colon_in_name_needed", "kwargs_name_needed", "docless_needed", "type_shape_needed"]
-THEOREMS = ["C01Whole." + t for t in WHOLE] + [
+THEOREMS = ["C01Whole." + t for t in WHOLE] + ["C01Google." + t for t in GOOGLE] + [
     "C01.extract_nat_roundtrip", "C01.extract_neg_roundtrip", "C01.extract_bool_roundtrip", "C01.setDefaultDoc_int",
     "C01.setDefaultDoc_extract_int", "C01.emit_no_default_when_stripped", "C01.quote_unquote", "C01.unquote_quote_idem",
     "C01.locate_emitted", "C01.hasParenAnnounce_false", "C01.extract_str_roundtrip", "C01.quote_good", "C01.parse_quoted_text", "C01.extract_float_roundtrip", "C01.parse_float_text", "C01.takeDefault_float",
@@ -292,6 +295,54 @@ def impl_whole(case):
         return {"raises": core.exc_name(e)}
 
 
+def impl_google(case):
+    import cdd.class_.parse  # noqa: F401
+    import cdd.docstring.emit as E
+    import cdd.docstring.parse as P
+
+    ir, edd = case
+    try:
+        ds = E.docstring(copy.deepcopy(ir), docstring_format="google", emit_default_doc=edd)
+        return {"ds": ds, "view": docir.ir_view(P.docstring(ds, emit_default_doc=edd))}
+    except Exception as e:  # noqa
+        return {"raises": core.exc_name(e)}
+
+
+def google_stream(chk, rng, have):
+    """C01Google.google_roundtrip_full against the real code: on the theorem's domain (decided by the driver; it includes the model's own
+    prose-type-inference test) the REAL parse(emit ir) in Google style equals the predicted interface, the require_default latch included"""
+    n = 1500 if chk.quick else 20000
+    cases = []
+    for _ in range(n):
+        ir = gen_whole(rng)
+        ir["returns"] = None
+        for p in ir["params"].values():
+            if isinstance(p.get("default"), float):
+                p["default"] = rng.choice([3, -7, True, False])
+        cases.append((ir, rng.random() < 0.6))
+    real = core.guarded_map(impl_google, cases, 15.0)
+    if not have:
+        return
+    gm = core.model_batch([{"op": "c01.google", "ir": docir.ir_to_model(ir), "edd": edd} for ir, edd in cases])
+    n_in = n_dis = n_latch = 0
+    for (ir, edd), r, g in zip(cases, real, gm):
+        if not isinstance(r, dict) or r.get("timeout") or r.get("skipped") or not g.get("indomain"):
+            continue
+        n_in += 1
+        ps = list(ir["params"].values())
+        if any("default" in a for a in ps[:-1]) and any("default" not in b for b in ps[1:]):
+            n_latch += 1
+        chk.count(("google", json.dumps(docir.ir_to_model(ir), sort_keys=True), edd), len(ir["params"]) >= 2)
+        if r.get("view") != g["exp"]:
+            n_dis += 1
+            chk.disagreement("C01 Google whole-docstring theorem: real parse(emit ir) = expIRG ir on InDomainG", {"ir": docir.ir_to_model(ir), "edd": edd},
+                             {"view": r.get("view"), "raises": r.get("raises"), "ds": r.get("ds")}, {"exp": g["exp"]})
+    chk.coverage["google_theorem_tie"] = {"generated": n, "in_domain_and_compared": n_in, "with_a_parameter_after_a_defaulted_one": n_latch}
+    chk.oblige("correspondence: on C01Google.InDomainG (decided by the driver) the REAL Google-style parse(emit ir) equals the interface predicted by google_roundtrip_full "
+               "(expIRG, incl. the defaults the require_default latch gives to later parameters) on %d in-domain interfaces (of %d generated)" % (n_in, n),
+               "correspondence", n_dis == 0 and n_in > n // 20, "%d disagreements, %d in domain" % (n_dis, n_in))
+
+
 def whole_stream(chk, rng, have):
     n = 1500 if chk.quick else 20000
     cases = [(gen_whole(rng), rng.random() < 0.7, rng.random() < 0.5, rng.random() < 0.6) for _ in range(n)]
@@ -386,6 +437,7 @@ def run(chk: core.Check) -> int:
                "correspondence", n_dis == 0 and have, "%d disagreements" % n_dis)
     # ---- the whole-docstring theorem's prediction against the real code --------------------------------------------
     whole_stream(chk, rng, have)
+    google_stream(chk, rng, have)
     # ---- value level: extract_default on description lines ------------------------------------------------------
     lines = []
     vals = ["5", "-3", "0", "42", "3.14", "-2.5", "0.001", "True", "False", '"foo"', "'a b'", "mnist", "```(None)```", "```np.zeros(3)```", "1e5", "None", "10.", "-7"]
